@@ -99,6 +99,9 @@ func unitsFor(prog *Program, prop string) []checkUnit {
 	var units []checkUnit
 	for _, key := range sortedKeys(prog.contracts.byKey) {
 		ct := prog.contracts.byKey[key]
+		if ct.Directives["iface"] != nil {
+			continue // assumed contract of an interface method: used at call sites, nothing to verify
+		}
 		serves := false
 		for _, p := range ct.Props {
 			if p == prop {
@@ -327,6 +330,13 @@ func cmdCheck(args []string) int {
 		}
 		for _, n := range rep.Notes {
 			assumptions["engine note: "+n] = true
+		}
+		for _, k := range rep.UsedContr {
+			if cc := prog.contracts.byKey[k]; cc != nil && cc.Directives["iface"] != nil {
+				assumptions["ASSUMED contract of an interface method (no body is verified against it): "+k] = true
+			} else {
+				assumptions["callee contract used in place of the body (the callee is its own unit of the properties named in its block): "+k] = true
+			}
 		}
 		for _, n := range rep.Inlined {
 			assumptions["inlined helper (body verified in context, no separate contract): "+n] = true
